@@ -5,8 +5,10 @@ import (
 	"errors"
 	"fmt"
 	"math/rand"
+	"runtime"
 	"strings"
 	"sync"
+	"sync/atomic"
 	"time"
 
 	"github.com/anishathalye/porcupine"
@@ -79,6 +81,18 @@ func plan(tier string, seed int64) []driver.Case {
 				}
 				cases = append(cases, driver.Case{ID: fmt.Sprintf("seqx/%s/%s-%s", c, a, b), P: map[string]string{"kind": "seq", "subject": string(c.kind), "n": fmt.Sprint(c.n), "prefix": a + " " + b, "len": fmt.Sprint(maxLen - 1), "alphabet": "x"}})
 			}
+		}
+	}
+	// two operations released by a spin barrier against a fresh subject, thousands of rounds each
+	// (the windows inside Subscribe / Complete are a few instructions wide): every round is a tiny
+	// history, judged like the others, with the observer count read at the end
+	spinRounds := 2500
+	if tier == "thorough" {
+		spinRounds = 40000
+	}
+	for _, k := range []config{{sm.Publish, 0}, {sm.Behavior, 0}, {sm.Replay, 2}, {sm.Async, 0}, {sm.Unicast, -1}, {sm.Unicast, 1}} {
+		for _, pair := range []string{"S|C", "S|E", "S|N", "U|N", "U|C", "S|S", "S|U"} {
+			cases = append(cases, driver.Case{ID: fmt.Sprintf("spin/%s/%s", k, pair), Solo: true, P: map[string]string{"kind": "spin", "subject": string(k.kind), "n": fmt.Sprint(k.n), "pair": pair, "rounds": fmt.Sprint(spinRounds)}})
 		}
 	}
 	// deterministic schedules: a broadcast is held between two subscribers while both unsubscribe
@@ -573,6 +587,120 @@ func judge(cfg config, history []porcupine.Operation, clients int, sig string, r
 
 // nextRacesUnsubscribe: some Next overlaps an Unsubscribe in real time (precondition of the
 // known "value handed to a subscriber that is leaving is lost" defect of the unicast subject).
+// runSpin: see the plan. Setup per round: Next(1); a first subscriber (id 0); then the two racing
+// operations (a new subscriber has id 1 / 2); then the final reads and the observer count.
+func runSpin(c driver.Case) driver.Result {
+	cfg := config{sm.Kind(c.Get("subject")), c.Int("n")}
+	pair := strings.Split(c.Get("pair"), "|")
+	rounds := c.Int("rounds")
+	res := driver.Result{Verdict: driver.Held}
+	type job struct {
+		subj    ro.Subject[int]
+		recs    []*rec.Rec
+		subs    []ro.Subscription
+		ops     [2]porcupine.Operation
+		nextSub [2]int
+	}
+	var cur atomic.Pointer[job]
+	var gate, doneCnt atomic.Int64
+	gate.Store(-1)
+	var stop atomic.Bool
+	var wg sync.WaitGroup
+	for g := 0; g < 2; g++ {
+		g := g
+		wg.Add(1)
+		go func() {
+			defer wg.Done()
+			for round := int64(0); round < int64(rounds); round++ {
+				for i := 0; gate.Load() < round; i++ {
+					if stop.Load() {
+						return
+					}
+					if i%256 == 255 {
+						runtime.Gosched()
+					}
+				}
+				j := cur.Load()
+				in := opIn{Op: pair[g]}
+				t0 := rec.Mono()
+				func() {
+					defer func() { recover() }()
+					switch pair[g] {
+					case "S":
+						in.Sub = j.nextSub[g]
+						j.subs[in.Sub] = j.subj.Subscribe(rec.Raw[int](j.recs[in.Sub]))
+					case "U":
+						in.Sub = 0
+						j.subs[0].Unsubscribe()
+					case "N":
+						in.V = 100 + g
+						j.subj.Next(in.V)
+					case "C":
+						j.subj.Complete()
+					case "E":
+						j.subj.Error(src.ErrSrc)
+					}
+				}()
+				j.ops[g] = porcupine.Operation{ClientId: 1 + g, Input: in, Output: opOut{}, Call: t0, Return: rec.Mono()}
+				doneCnt.Add(1)
+			}
+		}()
+	}
+	defer func() { stop.Store(true); wg.Wait() }()
+	watchdog := time.Now().Add(120 * time.Second)
+	for round := 0; round < rounds; round++ {
+		j := &job{subj: newSubject(cfg), recs: []*rec.Rec{rec.New("s0"), rec.New("s1"), rec.New("s2")}, subs: make([]ro.Subscription, 3), nextSub: [2]int{1, 2}}
+		var history []porcupine.Operation
+		seqOp := func(in opIn, f func()) {
+			t0 := rec.Mono()
+			f()
+			history = append(history, porcupine.Operation{ClientId: 0, Input: in, Output: opOut{}, Call: t0, Return: rec.Mono()})
+		}
+		seqOp(opIn{Op: "N", V: 1}, func() { j.subj.Next(1) })
+		seqOp(opIn{Op: "S", Sub: 0}, func() { j.subs[0] = j.subj.Subscribe(rec.Raw[int](j.recs[0])) })
+		cur.Store(j)
+		doneCnt.Store(0)
+		gate.Store(int64(round))
+		for i := 0; doneCnt.Load() < 2; i++ {
+			if i%256 == 255 {
+				runtime.Gosched()
+				if time.Now().After(watchdog) {
+					return driver.Result{Verdict: driver.Inconclusive, Key: "spin-rounds-not-finished", Dirty: true}
+				}
+			}
+		}
+		history = append(history, j.ops[0], j.ops[1])
+		tEnd := rec.Mono() + 1
+		for id, r := range j.recs {
+			if id > 0 && j.subs[id] == nil {
+				continue
+			}
+			history = append(history, porcupine.Operation{ClientId: 3, Input: opIn{Op: "R", Sub: id}, Output: opOut{Trace: strings.Join(renderTrace(r), " ")}, Call: tEnd, Return: tEnd + 1})
+			tEnd += 2
+			res.Events += int64(r.Len())
+		}
+		history = append(history, porcupine.Operation{ClientId: 3, Input: opIn{Op: "K"}, Output: opOut{N: j.subj.CountObservers()}, Call: tEnd, Return: tEnd + 1})
+		if porcupine.CheckOperationsTimeout(model(cfg, false), history, 5*time.Second) == porcupine.Ok {
+			for _, s := range j.subs {
+				if s != nil {
+					s.Unsubscribe()
+				}
+			}
+			continue
+		}
+		r := judge(cfg, history, 3, fmt.Sprintf("spin/%s/%s", cfg, c.Get("pair")), driver.Result{Verdict: driver.Held, Events: res.Events})
+		if r.Verdict != driver.Held {
+			r.Msg = fmt.Sprintf("round %d of %s ∥ %s released by a spin barrier: %s", round, pair[0], pair[1], r.Msg)
+			return r
+		}
+	}
+	res.Nontrivial = true
+	res.Sig = fmt.Sprintf("spin/%s/%s", cfg, c.Get("pair"))
+	res.Extra = map[string]int64{"spin_rounds": int64(rounds)}
+	res.Sample = map[string]any{"subject": cfg.String(), "racing_operations": c.Get("pair"), "rounds": rounds}
+	return res
+}
+
 // runPark: two subscribers; a broadcast (Next, Complete or Error) is held after it has reached the
 // first of them; that one and then the other unsubscribe; the broadcast goes on. The history - with
 // the real call/return times - is judged like the random ones. Under the sequential definition the
@@ -658,6 +786,9 @@ func runCase(c driver.Case) driver.Result {
 	}
 	if c.Get("kind") == "park" {
 		return runPark(c)
+	}
+	if c.Get("kind") == "spin" {
+		return runSpin(c)
 	}
 	return runSeq(c)
 }
